@@ -177,13 +177,17 @@ def run(c):
         for s in mand:
             l = s["min"] if s["lsz"] else s["max"]
             body += ([l] if s["lsz"] == 1 else [l >> 8, l & 255] if s["lsz"] == 2 else []) + [0x11] * l
+        for s in t["slots"]:                                                   # EVERY element with a 16-bit length: its largest claim,
+            if s["mand"] or s["half"] or s["lsz"] != 2: continue               # undelivered, a thousand times over - still at most ONE
+            add("plain", hdr + body + [s["iei"], 0xFF, 0xFF] * 1000)          # maximum-size element may be allocated
+            mx = min(s["max"], 65535)
+            if mx < 65535: add("plain", hdr + body + [s["iei"], mx >> 8, mx & 255] * 1000)
         for s in t["slots"]:
             if s["mand"] or s["half"] or s["lsz"] != 2: continue
             pre = hdr + body + [s["iei"]]
             if thorough or rng.random() < 0.25:
                 add("plain", pre + [0xFF, 0xFF] + [rng.randrange(256) for _ in range(65535)] + [rng.randrange(256) for _ in range(300)])
             add("plain", pre + [0xFF, 0xFF] + [1, 2, 3])                       # declares 64 KiB, delivers 3 octets
-            add("plain", hdr + body + [s["iei"], 0xFF, 0xFF] * 1000)          # ... a thousand times over: still ONE maximum-size element at most
             add("plain", pre + [0xFF, 0xFF])
             mx = min(s["max"], 65535)
             add("plain", pre + [mx >> 8, mx & 255] + [7] * 10)
